@@ -29,7 +29,8 @@ def atoms(tier):
                 out.append(Cmp(op, l, r))
     # fixed-point operands against integer and fixed-point ones
     fx = [Reg("x", 4), Loc("x"), Const(2.5), Const(-0.5)]
-    others = [Reg("r", 2), Reg("sr", 3), Loc("q"), Loc("i"), Loc("I"), Const(5), Const(-3)] + fx
+    others = [Reg("r", 2), Reg("sr", 3), Reg("w", 5), Reg("sw", 5), Loc("q"), Loc("i"), Loc("I"), Const(5),
+              Const(-3)] + fx
     for op in Cmp.OPS:
         for f in fx:
             for o in others:
